@@ -33,7 +33,7 @@ for pid in sorted(CHECKS):
     technique, text, note = CHECKS[pid]
     own, used = translated(pid)
     if own or used:
-        technique += (" + source translator (harness/py2lean.py): " + ", ".join(own + [u + " (via another property's file)" for u in used])
+        technique += (" + source translators (harness/py2lean.py, py2lean_cache.py, py2lean_weights.py): " + ", ".join(own + [u + " (via another property's file)" for u in used])
                       + " regenerated from /repo/src on every run (ArimProofs/Generated/Src*.lean) and tied to the model by kernel-checked theorems (ArimProofs/Tie/*.lean); "
                       "the main theorems are restated on the translated definitions")
         note = note.replace("the hand-written Lean model, tied to /repo/src only by this check's correspondence run",
